@@ -22,6 +22,7 @@ RULE = (
     "and variable conditions) around text, variables and nested blocks, inert text between blocks of child templates, required flags, "
     "endblock names (matching, absent, mismatched), duplicate block names and extends cycles (incl. self-extends). Every text item is a "
     "unique marker so the output exposes which definition rendered. Non-trivial = chain with >= 1 block, distinct by the printed sources."
+    " Rounds 5-6 added enumerated families: loops around a block's place seen through block.super; a third of all chains under autoescape."
 )
 REQUIRED = [
     ("liquid/extra/tags/extends_tag.py", "_build_block_stacks"),
